@@ -3,7 +3,7 @@ from props.c07 import enc_ob, RS, XOR, ISAV, ISAC, NULL, WB
 
 def plan(ctx):
     obs = []
-    ks = {RS: [1, 2, 3, 5, 7, 10], XOR: [(3, 3, 3), (5, 5, 3), (10, 5, 3), (6, 6, 4), (15, 6, 3), (20, 6, 4)], ISAV: [1, 3, 10, 31], ISAC: [2, 11]}
+    ks = {RS: [1, 2, 3, 5, 7], XOR: [(3, 3, 3), (10, 5, 3), (6, 6, 4), (20, 6, 4)], ISAV: [1, 3, 31], ISAC: [2, 11]}
     if ctx.tier == "thorough":
         ks[RS] = list(range(1, 13)) + [16]; ks[ISAV] = list(range(1, 32)); ks[ISAC] = list(range(1, 32))
         ks[XOR] = [(k, 6, 3) for k in range(6, 16)] + [(k, 5, 3) for k in range(5, 11)] + [(3, 3, 3)] + [(k, 6, 4) for k in range(6, 21)] + [(k, 5, 4) for k in range(5, 11)]
